@@ -47,7 +47,7 @@ fn main() {
     }
 
     let (n_programs, max_depth) = match args.tier.as_str() {
-        "thorough" => (40_000u64, 4u32),
+        "thorough" => (12_000u64, 4u32),
         _ => (2_500u64, 3u32),
     };
     let mut rng = Rng::new(args.seed);
